@@ -49,6 +49,7 @@ type ElemPtr struct {
 	Arr  Term // backing array ref
 	Idx  Term
 	Elem types.Type
+	Path []int // field path inside a struct element
 }
 
 // GlobalPtr is the address of a package-level variable.
@@ -406,7 +407,7 @@ func (ex *Exec) mergeVal(c Term, a, b Val) Val {
 		}
 	case ElemPtr:
 		if y, ok := b.(ElemPtr); ok {
-			return ElemPtr{Arr: Ite(c, x.Arr, y.Arr), Idx: Ite(c, x.Idx, y.Idx), Elem: x.Elem}
+			return ElemPtr{Arr: Ite(c, x.Arr, y.Arr), Idx: Ite(c, x.Idx, y.Idx), Elem: x.Elem, Path: x.Path}
 		}
 	case Opaque:
 		return x
